@@ -157,6 +157,7 @@ class Proxy:
         env = dict(os.environ)
         env.pop("REDPROXY_VERIF_INPROC", None)
         env.pop("RUST_LOG", None)
+        env["RUST_BACKTRACE"] = "0"
         if self.env:
             env.update(self.env)
         self.proc = subprocess.Popen([self.binary, "-c", self.cfg_path, "-l", self.log_level], cwd=self.wd,
